@@ -631,6 +631,11 @@ func (kcp *KCP) Input(data []byte, pktType PacketType, ackNoDelay bool) int {
 			return -2
 		}
 
+		// a segment never carries more than a packet buffer holds
+		if length > mtuLimit {
+			return -2
+		}
+
 		if cmd != IKCP_CMD_PUSH && cmd != IKCP_CMD_ACK &&
 			cmd != IKCP_CMD_WASK && cmd != IKCP_CMD_WINS {
 			return -3
